@@ -89,6 +89,14 @@ fn run(case: &mut Case) -> Result<(), String> {
     if dot(&y, &ax) != dot(&aty, &x) {
         return Err(format!("<y, A x> = {:?} != <A^T y, x> = {:?}", dot(&y, &ax), dot(&aty, &x)));
     }
+    // the same identity through the library's own Vector::dot (also for empty dimensions)
+    {
+        let (axv, atyv) = (sp.multiply(&xv), sp.transpose_multiply(&yv));
+        let (l, r) = (yv.dot(&axv), atyv.dot(&xv));
+        if l != r || l != dot(&y, &ax) {
+            return Err(format!("y.dot(A x) = {:?}, (A^T y).dot(x) = {:?}, exact {:?}", l, r, dot(&y, &ax)));
+        }
+    }
     if xv.vec != x || yv.vec != y {
         return Err("a product modified its vector operand".into());
     }
